@@ -52,6 +52,10 @@ def _xml_tag_hook(interp, args, kwargs, node):
     v = args[0] if args else kwargs.get("value")
     if isinstance(v, Sym):
         return interp.decide(("is_xml_tag", v.name.split(".")[0]))
+    if isinstance(v, str) and v.isascii():
+        # concrete ASCII sample: XML NCName[:NCName] restricted to ASCII (the samples of this module are ASCII)
+        import re as _re
+        return bool(_re.fullmatch(r"[A-Za-z_][A-Za-z0-9_.\-]*(:[A-Za-z_][A-Za-z0-9_.\-]*)?", v))
     raise AnalysisError("C19", "is_xml_tag called with a non-abstract value during table evaluation")
 
 
